@@ -232,7 +232,17 @@ func typeKey(t types.Type) string {
 }
 
 func shortTypeName(t types.Type) string {
-	s := types.TypeString(t, func(p *types.Package) string { return p.Name() })
+	s := types.TypeString(t, func(p *types.Package) string {
+		// repository packages by name; everything else by path (names such
+		// as sync.Mutex / internal/sync.Mutex would collide otherwise)
+		if strings.HasPrefix(p.Path(), "github.com/gammazero/nexus/v3") || !strings.Contains(p.Path(), "/") {
+			if strings.HasPrefix(p.Path(), "internal") {
+				return p.Path()
+			}
+			return p.Name()
+		}
+		return p.Path()
+	})
 	return sanitize(s)
 }
 
